@@ -485,7 +485,7 @@ func (c *Ctx) writeEvidence(start time.Time, res runResult, nOK int, seed int64)
 		"seed":        seed,
 		"level":       "other",
 		"coverage":    cov,
-		"assumptions": c.Assume,
+		"assumptions": assumptions(c),
 		"wall_s":      time.Since(start).Seconds(),
 		"violations":  res.violations,
 	}
@@ -525,4 +525,16 @@ func (w *World) funcDecl(rel, recv, name string) (*ast.FuncDecl, *packages.Packa
 		}
 	}
 	return nil, p
+}
+
+func assumptions(c *Ctx) []string {
+	out := []string{"go/types, go/packages and go/ssa (x/tools v0.29.0) represent the program faithfully", "the oracle tables embedded in the checker (oracle.go) are correct"}
+	for _, t := range c.Trusted {
+		out = append(out, "trusted: "+t)
+	}
+	out = append(out, c.Assume...)
+	for _, u := range c.Undec {
+		out = append(out, "not decided by this check: "+u)
+	}
+	return out
 }
